@@ -217,6 +217,11 @@ def sonar_docs():
     docs.append(("flows", {"issues": [sonar_entry("issues", 0, "OPEN", flows=True)]}))
     docs.append(("two-rules-two-files", {"issues": [sonar_entry("issues", 0, "OPEN"), sonar_entry("issues", 1, "OPEN", rule="python:S5796"), sonar_entry("issues", 2, "OPEN", file="other.py"), sonar_entry("issues", 3, "OPEN")]}))
     docs.append(("lower-case-status", {"issues": [sonar_entry("issues", 0, "open")]}))
+    # a project key that itself contains colons (Maven style group:artifact): the path is what follows the last colon
+    e = sonar_entry("issues", 0, "OPEN", flows=True)
+    e["component"] = "com.acme:shop:code.py"
+    e["flows"][0]["locations"][0]["component"] = "com.acme:shop:code.py"
+    docs.append(("project-key-with-colons", {"issues": [e, sonar_entry("issues", 1, "OPEN")]}))
     return docs
 
 
